@@ -1,4 +1,431 @@
-//! `conc`: not built yet.
-pub fn run_case(_line: &str) -> String {
-    "unimplemented".to_string()
+//! `conc`: several threads emitting and flushing through ONE shared StatsdClient into one
+//! buffered sink (BufferedSpyMetricSink, BufferedUdpMetricSink, BufferedUnixMetricSink).
+//!
+//! case:  C <S|U|X> <cap|d> <queue|u> <seq|free> <seed> <progs> <plan>
+//!   progs = per-thread programs separated by '/', each a comma list of
+//!             C<hexkey>   client.count(key, <index of the op>)        (through the shared client)
+//!             E<hex>      emit of the given string on the shared sink (MetricSink::emit)
+//!             F           client.flush()
+//!             f           MetricSink::flush on the shared sink
+//!   plan  = seq : comma list of steps  t  |  t+u[+v..]   (thread t performs its next op; with +u.. thread t is
+//!                 parked inside the sink's critical section (hook "sink.cs.enter") while u.. start their next
+//!                 op, which must wait for the lock; then t is released)
+//!           free: '-' (all threads run their programs freely; the hook injects yields inside and around the
+//!                 critical sections, derived from <seed>)
+//! observation:
+//!   V:<events>|T:<per thread ';': per call ',': metric handed to the sink (hex | F) '=' result k<n>|e >
+//!   |R:<per thread ';': per op K (Ok) | R (Err) | P (panic)>|D:<datagrams hex ';'>|H:<notes>
+//!   events = the hook events in global order: <role><e|w|x>  (enter / underlying write / exit of a critical
+//!            section; role = thread number, m = any other thread)
+use crate::util::{catch, hex, unhex};
+use cadence::prelude::*;
+use cadence::{BufferedSpyMetricSink, BufferedUdpMetricSink, BufferedUnixMetricSink, MetricSink, StatsdClient};
+use std::cell::{Cell, RefCell};
+use std::io;
+use std::net::UdpSocket;
+use std::os::unix::net::UnixDatagram;
+use std::panic::RefUnwindSafe;
+use std::path::PathBuf;
+use std::sync::atomic::{AtomicBool, AtomicU64, Ordering};
+use std::sync::mpsc;
+use std::sync::{Arc, Barrier, Condvar, Mutex};
+use std::thread;
+use std::time::{Duration, Instant};
+
+thread_local! {
+    static ROLE: Cell<usize> = Cell::new(usize::MAX);
+    static TLOG: RefCell<Vec<String>> = RefCell::new(Vec::new());
+}
+
+static COUNTER: AtomicU64 = AtomicU64::new(0);
+
+struct Hold {
+    role: Option<usize>,
+    parked: bool,
+    release: bool,
+}
+
+struct Ctl {
+    events: Mutex<Vec<(usize, u8)>>,
+    hold: Mutex<Hold>,
+    cv: Condvar,
+    free: bool,
+    seed: u64,
+    n: AtomicU64,
+}
+
+fn mix(mut x: u64) -> u64 {
+    x ^= x >> 33;
+    x = x.wrapping_mul(0xff51afd7ed558ccd);
+    x ^= x >> 33;
+    x = x.wrapping_mul(0xc4ceb9fe1a85ec53);
+    x ^ (x >> 33)
+}
+
+impl Ctl {
+    fn hook(&self, site: &'static str) {
+        let code = match site {
+            "sink.cs.enter" => b'e',
+            "sink.write" => b'w',
+            "sink.cs.exit" => b'x',
+            _ => return,
+        };
+        let role = ROLE.with(|r| r.get());
+        self.events.lock().unwrap().push((role, code));
+        if self.free {
+            let k = self.n.fetch_add(1, Ordering::Relaxed);
+            let r = mix(self.seed ^ k.wrapping_mul(0x9e3779b97f4a7c15));
+            match r % 8 {
+                0 | 1 => thread::yield_now(),
+                2 => {
+                    for _ in 0..3 {
+                        thread::yield_now();
+                    }
+                }
+                3 => {
+                    let t0 = Instant::now();
+                    while t0.elapsed() < Duration::from_micros(30 + (r >> 8) % 100) {
+                        std::hint::spin_loop();
+                    }
+                }
+                _ => {}
+            }
+        } else if code == b'e' {
+            let mut h = self.hold.lock().unwrap();
+            if h.role == Some(role) {
+                h.parked = true;
+                self.cv.notify_all();
+                let t0 = Instant::now();
+                while !h.release && t0.elapsed() < Duration::from_secs(5) {
+                    let (g, _) = self.cv.wait_timeout(h, Duration::from_millis(50)).unwrap();
+                    h = g;
+                }
+                h.role = None;
+                h.parked = false;
+                h.release = false;
+            }
+        }
+    }
+}
+
+/// records, on the calling thread, what is handed to the shared sink and what it answers
+struct Tee(Arc<dyn MetricSink + Send + Sync + RefUnwindSafe>);
+
+impl MetricSink for Tee {
+    fn emit(&self, metric: &str) -> io::Result<usize> {
+        let r = self.0.emit(metric);
+        let s = match &r {
+            Ok(n) => format!("{}=k{}", hex(metric.as_bytes()), n),
+            Err(_) => format!("{}=e", hex(metric.as_bytes())),
+        };
+        TLOG.with(|l| l.borrow_mut().push(s));
+        r
+    }
+    fn flush(&self) -> io::Result<()> {
+        let r = self.0.flush();
+        let s = match &r {
+            Ok(()) => "F=k0".to_string(),
+            Err(_) => "F=e".to_string(),
+        };
+        TLOG.with(|l| l.borrow_mut().push(s));
+        r
+    }
+}
+
+enum Recv {
+    Spy(crossbeam_channel::Receiver<Vec<u8>>),
+    Udp(UdpSocket),
+    Unix(UnixDatagram, PathBuf),
+}
+
+fn do_op(op: &str, idx: usize, client: &StatsdClient, tee: &Arc<Tee>) -> char {
+    let r = catch(|| match &op[..1] {
+        "C" => {
+            let key = String::from_utf8(unhex(&op[1..])).expect("utf8 key");
+            client.count(key.as_str(), idx as i64).is_ok()
+        }
+        "E" => {
+            let m = String::from_utf8(unhex(&op[1..])).expect("utf8 metric");
+            tee.emit(&m).is_ok()
+        }
+        "F" => client.flush().is_ok(),
+        "f" => tee.flush().is_ok(),
+        _ => panic!("bad op {}", op),
+    });
+    match r {
+        Ok(true) => 'K',
+        Ok(false) => 'R',
+        Err(_) => 'P',
+    }
+}
+
+pub fn run_case(line: &str) -> String {
+    let t: Vec<&str> = line.split_whitespace().collect();
+    assert!(t[0] == "C", "bad conc case {:?}", line);
+    let cap: Option<usize> = if t[2] == "d" { None } else { Some(t[2].parse().unwrap()) };
+    let queue: Option<usize> = if t[3] == "u" { None } else { Some(t[3].parse().unwrap()) };
+    let free = t[4] == "free";
+    let seed: u64 = t[5].parse().unwrap();
+    let progs: Vec<Vec<String>> = t[6]
+        .split('/')
+        .map(|p| if p == "-" { vec![] } else { p.split(',').map(|s| s.to_string()).collect() })
+        .collect();
+    let nthreads = progs.len();
+
+    // the shared sink and its receiving end
+    let (inner, recv): (Arc<dyn MetricSink + Send + Sync + RefUnwindSafe>, Recv) = match t[1] {
+        "S" => {
+            let (rx, sink) = BufferedSpyMetricSink::with_capacity(queue, cap);
+            (Arc::new(sink), Recv::Spy(rx))
+        }
+        "U" => {
+            let r = UdpSocket::bind("127.0.0.1:0").expect("bind");
+            r.set_nonblocking(true).unwrap();
+            let addr = r.local_addr().unwrap();
+            let s = UdpSocket::bind("127.0.0.1:0").expect("bind");
+            let sink = match cap {
+                None => BufferedUdpMetricSink::from(addr, s).expect("sink"),
+                Some(c) => BufferedUdpMetricSink::with_capacity(addr, s, c).expect("sink"),
+            };
+            (Arc::new(sink), Recv::Udp(r))
+        }
+        "X" => {
+            let n = COUNTER.fetch_add(1, Ordering::Relaxed);
+            let base = std::env::var("VERIF_TMP").unwrap_or_else(|_| "/tmp".to_string());
+            let p = PathBuf::from(format!("{}/cadence-verif-conc-{}-{}.sock", base, std::process::id(), n));
+            let _ = std::fs::remove_file(&p);
+            let r = UnixDatagram::bind(&p).expect("bind unix");
+            r.set_nonblocking(true).unwrap();
+            let s = UnixDatagram::unbound().expect("unbound");
+            let sink = match cap {
+                None => BufferedUnixMetricSink::from(&p, s),
+                Some(c) => BufferedUnixMetricSink::with_capacity(&p, s, c),
+            };
+            (Arc::new(sink), Recv::Unix(r, p))
+        }
+        _ => panic!("bad sink {}", t[1]),
+    };
+    let tee = Arc::new(Tee(inner));
+    struct Fwd(Arc<Tee>);
+    impl MetricSink for Fwd {
+        fn emit(&self, m: &str) -> io::Result<usize> {
+            self.0.emit(m)
+        }
+        fn flush(&self) -> io::Result<()> {
+            self.0.flush()
+        }
+    }
+    let client = Arc::new(StatsdClient::from_sink("", Fwd(tee.clone())));
+
+    // datagram collector for the socket sinks (keeps the receive queue short)
+    let stop_rx = Arc::new(AtomicBool::new(false));
+    let collected: Arc<Mutex<Vec<Vec<u8>>>> = Arc::new(Mutex::new(vec![]));
+    let collector = match &recv {
+        Recv::Spy(_) => None,
+        Recv::Udp(_) | Recv::Unix(_, _) => {
+            let stop = stop_rx.clone();
+            let col = collected.clone();
+            let sock: Box<dyn Fn(&mut [u8]) -> Option<usize> + Send> = match &recv {
+                Recv::Udp(s) => {
+                    let s = s.try_clone().unwrap();
+                    Box::new(move |b| s.recv(b).ok())
+                }
+                Recv::Unix(s, _) => {
+                    let s = s.try_clone().unwrap();
+                    Box::new(move |b| s.recv(b).ok())
+                }
+                _ => unreachable!(),
+            };
+            Some(thread::spawn(move || {
+                let mut buf = vec![0u8; 70_000];
+                let mut quiet = Instant::now();
+                loop {
+                    match sock(&mut buf) {
+                        Some(n) => {
+                            col.lock().unwrap().push(buf[..n].to_vec());
+                            quiet = Instant::now();
+                        }
+                        None => {
+                            if stop.load(Ordering::SeqCst) && quiet.elapsed() > Duration::from_millis(25) {
+                                break;
+                            }
+                            thread::sleep(Duration::from_micros(200));
+                        }
+                    }
+                }
+            }))
+        }
+    };
+
+    let ctl = Arc::new(Ctl {
+        events: Mutex::new(vec![]),
+        hold: Mutex::new(Hold { role: None, parked: false, release: false }),
+        cv: Condvar::new(),
+        free,
+        seed,
+        n: AtomicU64::new(0),
+    });
+    let c2 = ctl.clone();
+    cadence::verif::install(Arc::new(move |site| c2.hook(site)));
+
+    let mut notes: Vec<String> = vec![];
+    let mut go_tx: Vec<mpsc::Sender<()>> = vec![];
+    let (done_tx, done_rx) = mpsc::channel::<usize>();
+    let barrier = Arc::new(Barrier::new(nthreads + 1));
+    let mut handles = vec![];
+    for (tid, prog) in progs.iter().cloned().enumerate() {
+        let (tx, rx) = mpsc::channel::<()>();
+        go_tx.push(tx);
+        let client = client.clone();
+        let tee = tee.clone();
+        let done = done_tx.clone();
+        let barrier = barrier.clone();
+        handles.push(thread::spawn(move || {
+            ROLE.with(|r| r.set(tid));
+            let mut res = String::new();
+            barrier.wait();
+            for (j, op) in prog.iter().enumerate() {
+                if !free {
+                    if rx.recv().is_err() {
+                        break;
+                    }
+                }
+                res.push(do_op(op, j, &client, &tee));
+                if !free {
+                    let _ = done.send(tid);
+                }
+            }
+            let log = TLOG.with(|l| l.borrow().join(","));
+            (res, log)
+        }));
+    }
+    barrier.wait();
+    if !free && t[7] != "-" {
+        let mut issued = vec![0usize; nthreads];
+        for step in t[7].split(',') {
+            let ths: Vec<usize> = step.split('+').map(|x| x.parse().unwrap()).collect();
+            let ths: Vec<usize> = ths.into_iter().filter(|&x| x < nthreads).collect();
+            // only threads that still have an operation left take part, each once
+            let mut part: Vec<usize> = vec![];
+            for &x in &ths {
+                if issued[x] < progs[x].len() && !part.contains(&x) {
+                    part.push(x);
+                }
+            }
+            if part.is_empty() {
+                continue;
+            }
+            if part.len() > 1 {
+                ctl.hold.lock().unwrap().role = Some(part[0]);
+            }
+            let _ = go_tx[part[0]].send(());
+            issued[part[0]] += 1;
+            if part.len() > 1 {
+                // wait until the holder is parked inside its critical section
+                let mut h = ctl.hold.lock().unwrap();
+                let t0 = Instant::now();
+                while !h.parked && t0.elapsed() < Duration::from_millis(300) {
+                    let (g, _) = ctl.cv.wait_timeout(h, Duration::from_millis(20)).unwrap();
+                    h = g;
+                }
+                let parked = h.parked;
+                drop(h);
+                if !parked {
+                    notes.push(format!("nopark{}", part[0]));
+                }
+                for &u in &part[1..] {
+                    let _ = go_tx[u].send(());
+                    issued[u] += 1;
+                }
+                // give the others time to arrive at the lock
+                let t0 = Instant::now();
+                while t0.elapsed() < Duration::from_micros(400) {
+                    thread::yield_now();
+                }
+                let mut h = ctl.hold.lock().unwrap();
+                h.release = true;
+                if !h.parked {
+                    h.role = None;
+                    h.release = false;
+                }
+                ctl.cv.notify_all();
+            }
+            for _ in 0..part.len() {
+                if done_rx.recv_timeout(Duration::from_secs(10)).is_err() {
+                    notes.push("timeout".to_string());
+                    break;
+                }
+            }
+        }
+        // whatever the plan left over runs sequentially, thread by thread
+        for x in 0..nthreads {
+            while issued[x] < progs[x].len() {
+                let _ = go_tx[x].send(());
+                issued[x] += 1;
+                if done_rx.recv_timeout(Duration::from_secs(10)).is_err() {
+                    notes.push("timeout".to_string());
+                    break;
+                }
+            }
+        }
+    }
+    drop(go_tx);
+    let mut per_thread_res = vec![];
+    let mut per_thread_log = vec![];
+    for h in handles {
+        match h.join() {
+            Ok((r, l)) => {
+                per_thread_res.push(r);
+                per_thread_log.push(l);
+            }
+            Err(_) => {
+                per_thread_res.push("P".to_string());
+                per_thread_log.push(String::new());
+            }
+        }
+    }
+    // the final drop: client -> Fwd -> Tee -> sink (BufWriter::drop flushes what is left)
+    let dropped = catch(move || {
+        drop(client);
+        drop(tee);
+    });
+    if dropped.is_err() {
+        notes.push("droppanic".to_string());
+    }
+    cadence::verif::uninstall();
+    let dg: Vec<Vec<u8>> = match recv {
+        Recv::Spy(rx) => rx.try_iter().collect(),
+        Recv::Udp(_) => {
+            stop_rx.store(true, Ordering::SeqCst);
+            collector.unwrap().join().unwrap();
+            collected.lock().unwrap().clone()
+        }
+        Recv::Unix(_, p) => {
+            stop_rx.store(true, Ordering::SeqCst);
+            collector.unwrap().join().unwrap();
+            let _ = std::fs::remove_file(&p);
+            collected.lock().unwrap().clone()
+        }
+    };
+    let ev = ctl.events.lock().unwrap();
+    let mut evs = String::with_capacity(ev.len() * 3);
+    for (i, (role, code)) in ev.iter().enumerate() {
+        if i > 0 {
+            evs.push('.');
+        }
+        if *role == usize::MAX {
+            evs.push('m');
+        } else {
+            evs.push_str(&role.to_string());
+        }
+        evs.push(*code as char);
+    }
+    format!(
+        "V:{}|T:{}|R:{}|D:{}|H:{}",
+        evs,
+        per_thread_log.join(";"),
+        per_thread_res.join(";"),
+        dg.iter().map(|d| hex(d)).collect::<Vec<_>>().join(";"),
+        notes.join(",")
+    )
 }
